@@ -32,6 +32,36 @@ func ctxChain(v ssa.Value) ([]ctxStep, ssa.Value) {
 	var steps []ctxStep
 	for i := 0; i < 20; i++ {
 		v = origin(v)
+		if _, isPhi := v.(*ssa.Phi); !isPhi {
+			// result of a private helper that derives the context: its returns are alternatives, like the edges of a phi
+			if alts, ok := altEdges(v); ok {
+				var parent ssa.Value
+				var names []string
+				var firstCall *ssa.Call
+				okAlt := true
+				for _, e := range alts {
+					st, root := ctxChainOne(e)
+					if st == nil {
+						okAlt = false
+						break
+					}
+					names = append(names, st.name)
+					if firstCall == nil {
+						firstCall = st.call
+					}
+					if parent == nil {
+						parent = root
+					} else if origin(parent) != origin(root) {
+						okAlt = false
+					}
+				}
+				if okAlt && parent != nil {
+					steps = append(steps, ctxStep{strings.Join(sortedCopy(names), "|"), firstCall})
+					v = parent
+					continue
+				}
+			}
+		}
 		switch x := v.(type) {
 		case *ssa.Extract:
 			if call, ok := x.Tuple.(*ssa.Call); ok && x.Index == 0 {
